@@ -12,6 +12,7 @@ import (
 	"fmt"
 	"os"
 	"runtime"
+	"time"
 )
 
 func main() {
@@ -92,6 +93,8 @@ func runScenario(tr *Tracer, s *Scenario, idx int) {
 	}
 	// run finalizers now so that a finalizer panic is attributed to this scenario
 	runtime.GC()
+	time.Sleep(3 * time.Millisecond)
 	runtime.GC()
+	time.Sleep(2 * time.Millisecond)
 	tr.Emit(map[string]interface{}{"ev": "end", "idx": idx, "completed": ok})
 }
